@@ -147,7 +147,7 @@ PROPS = {
         "assumptions": ["VRF outputs taken from the real HardCodedAkdVRF as an oracle table; collision-free on the inputs in play"],
     },
     "C02": {
-        "thm_module": ["AkdModel.Thm.C02"],
+        "thm_module": ["AkdModel.Thm.C02", "AkdModel.Thm.C02b"],
         "theorems": ["Akd.C02.batch_lookup_complete", "Akd.C02.batch_lookup_unpublished", "Akd.C02.batchLookup_sound",
                      "Akd.C02.batchLookup_complete", "Akd.C02.batchLookup_fails",
                      "Akd.C02.lookup_complete", "Akd.C02.lookup_unpublished", "Akd.C02.rootHash_refines",
